@@ -9,16 +9,16 @@ MANIFEST = dict(
     text="Lean theorems (RoProps/C05b.lean) for the multi-source machines of Zip*/ZipAll, CombineLatest*/CombineLatestAll, ConcatAll/Concat/ConcatWith/FlatMap*, "
          "BufferWhen, WindowWhen, GroupBy*: for every tuple of source scripts and EVERY interleaving (each notification processed to quiescence) the delivered trace equals the "
          "specification over the arrivals (zip of k-th values, latest tuples, sources one after another, partition at boundary ticks, per-key substreams), the trace obeys the grammar, "
-         "each source's order is kept, a terminal releases every source. Deviations of the pinned tree (Zip complete callback, ZipAll outer completion, Concat subscribing after an error, "
-         "GroupBy error/late subscriber) are `_partial` + witness theorems and replayed known findings. True concurrency: micro-step models of Zip/CombineLatest/BufferWhen/WindowWhen with "
-         "witness theorems that the clause fails (lost tuple, self-deadlock, duplicate tuple, lost buffer, lost value), confirmed on the real code by stress. Tie: differential runs of the executable model against the real operators on hot "
+         "each source's order is kept, a terminal releases every source; concat subscribes source j exactly when all earlier ones completed. The only deviation left in the logical semantics "
+         "(GroupBy group subscribed after the source ended loses its backlog) is a `_partial` + witness theorem and a replayed known finding. True concurrency: micro-step models of Zip/CombineLatest/BufferWhen/WindowWhen with "
+         "witness theorems that the clause fails (lost tuple / reordering, duplicate tuple, lost buffer, lost value), confirmed on the real code by stress. Tie: differential runs of the executable model against the real operators on hot "
          "probe sources, exhaustive over small scripts x all interleavings plus seeded samples, all result fields equal; plus implementation = Spec outside the known classes.",
     technique="Lean 4 proof (run of an all-hot machine = fold over arrivals; induction over arrivals / interleavings) + differential correspondence (kind multib)",
     ref='5/C05')
 
 # classes whose members may deliver a trace different from the specification
-TRACE_CLASSES = {'zipCompleteUnsub', 'zipAllOuterCompletes', 'groupByLate', 'groupByErrorCompletesGroups'}
-SUBS_CLASSES = {'concatInnerError'}
+TRACE_CLASSES = {'groupByLate'}
+SUBS_CLASSES = set()
 
 
 def proj_mb(d):
@@ -142,7 +142,7 @@ def parts(ctx):
              'quick: 0-1 sources x scripts <=3, 2 sources x scripts <=2 values x {never, complete, error} x ALL interleavings, 3 sources x scripts <=1 value x ALL interleavings (sampled 1/4 for secondary variants), '
              '300 seeded random cases per variant (2-6 sources, scripts <=4, entries that issue nothing); thorough: 2 sources x <=3 values, 3 sources x <=2 values x ALL interleavings (1/8 for secondary variants), 3000 random per variant; '
              'one case in five also with an external Unsubscribe at a random point (not ConcatAll, which blocks in Subscribe); compared: delivered trace (windows/groups as what their recorder received), refused notifications (multiset), per-source released flags, per-source subscription counts - all equal; '
-             'oracle: implementation trace = Lean Spec.* of the arrivals outside the Known.* classes, Concat subscriptions = Spec.concatSubscribed outside Known.concatInnerError; non-trivial = something delivered or refused',
+             'oracle: implementation trace = Lean Spec.* of the arrivals outside Known.groupByLate, Concat subscriptions = Spec.concatSubscribed; non-trivial = something delivered or refused',
         assumptions=['logical semantics (theorems + correspondence): each notification processed to quiescence before the next is issued',
                      'true concurrency (Zip/CombineLatest/BufferWhen/WindowWhen): witness theorems in the micro-step model + stress on the real code (kind multibc: 16 two-source scenarios x 4000 iterations quick / 120000 thorough, free-running goroutines, seeded jitter); stress is a search and a model validation (seen subset of reachable), not a proof',
                      'sources are hot (notify after Subscribe returned); outer sources of ZipAll/CombineLatestAll/ConcatAll/FlatMap are synchronous and emit the inner sources in order',
